@@ -412,6 +412,8 @@ class Flow:
                 continue
             if leaf not in vs:
                 return False, 'register %s is not always set to the newest value (%s)' % (newest, tstr(leaf)[:60])
+        seeded_first = False
+        qs = [q for q, info in self.queues.items() if info['V'] is not None]
         for conds, leaf in self.cell_cases(oldest, deep=False):
             if not self.delivering(conds):
                 continue
@@ -420,6 +422,17 @@ class Flow:
                 return False, 'register %s is not set to the evicted value when a value leaves (%s)' % (oldest, tstr(leaf)[:60])
             if not evicting and leaf not in vs and leaf != ('in', oldest):
                 return False, 'register %s takes an unexpected value %s' % (oldest, tstr(leaf)[:60])
+            # the very first delivered value (empty window) must seed the register: the change attributed to the first value
+            # when it leaves is then the 0 that was booked when it entered
+            H = self.base.extended([c for c in conds if self.structural(c)])
+            first = any(entails_h(H, op('eq', ('len', ('in', q)), lit(0, 'i'))) for q in qs) and not (H.cube.dead or H.cube.theory_unsat())
+            if first:
+                if leaf in vs:
+                    seeded_first = True
+                else:
+                    return False, 'register %s is not seeded with the first value (it keeps %s): the change booked for the first value when it leaves is not the one booked when it entered' % (oldest, tstr(leaf)[:40])
+        if not seeded_first:
+            return False, 'register %s is never seeded with the first delivered value' % oldest
         return True, '%s := newest value each step; %s := evicted value on eviction (first value initially)' % (newest, oldest)
 
     # ------------------------------------------------------------------ extrema
